@@ -3,7 +3,7 @@
    model: model/VecIndex.v (Engine.Add = add, Index.forklessCause = fc, Index.ForklessCause with its
    LRU = fc_query); specification: spec/FcSpec.v (fc_spec: ancestry closure + seq-forks). *)
 From Coq Require Import NArith List Permutation Bool.
-From LV Require Import model.VecIndex spec.FcSpec spec.StreamSpec proofs.FcSpecFast proofs.FcSpecFacts proofs.VecInv proofs.VecStep proofs.VecMain.
+From LV Require Import model.VecIndex model.VecPersist proofs.VecPersistProofs spec.FcSpec spec.StreamSpec proofs.FcSpecFast proofs.FcSpecFacts proofs.VecInv proofs.VecStep proofs.VecMain.
 Import ListNotations.
 Local Open Scope N_scope.
 Local Open Scope bool_scope.
@@ -77,6 +77,40 @@ Theorem C05_query_never_crits : forall n s ws q a b ea eb, vinv n s -> 0 < q -> 
   fc_res ws q s a b = Some (fc_spec ws q n (evs s) a b).
 Proof. exact fc_res_spec. Qed.
 
+(* Round 3: persistence and restart.  (A) what Flush writes is read back unchanged (uint32 fields,
+   4-byte branch ids) whenever the stored numbers fit into 32 bits, and Add keeps them so. *)
+Theorem C05_reopen_reads_back_what_was_flushed : forall n s, vbounded s -> nvals s = n ->
+  reopen n (evs s) (persisted s) = s.
+Proof. exact reopen_persisted. Qed.
+Theorem C05_add_keeps_numbers_in_uint32 : forall n s e s', vinv n s -> wf_new n s e -> VecIndex.add s e = Some s' ->
+  vbounded s -> eseq e < U32 -> N.of_nat (S (nbr s)) < U32 -> vbounded s'.
+Proof. exact add_bounded. Qed.
+(* (C) restart_index_equiv: over any history of Add / Flush / DropNotFlushed / Restart (Restart = a NEW
+   vecfc.Index, Reset over the flushed database; BranchesInfo is reloaded from the record written by Flush),
+   the engine's view is, step by step, the state of the index that kept running and dropped its unflushed
+   writes.  Hence identical answers (forkless cause, merged clocks, branch bookkeeping), equal to the
+   graph specification on the current view. *)
+Theorem C05_restart_index_equiv : forall n ops p st, prel n p st -> pops_ok n st ops ->
+  prel n (fold_left p_step ops p) (fold_left vs_step (map vop_of ops) st).
+Proof. exact restart_index_equiv. Qed.
+Theorem C05_restart_same_answers : forall n ops ws q a b, pops_ok n (vs_init n) ops ->
+  let p := fold_left p_step ops (p_init n) in
+  let st := fold_left vs_step (map vop_of ops) (vs_init n) in
+  p_view p = vs_cur st /\
+  fc ws q (p_view p) a b = fc ws q (vs_cur st) a b /\ merged (p_view p) a = merged (vs_cur st) a /\
+  (br_last (p_view p), br_cr (p_view p), by_cr (p_view p)) = (br_last (vs_cur st), br_cr (vs_cur st), by_cr (vs_cur st)).
+Proof. exact restart_answers. Qed.
+Theorem C05_restart_answers_equal_spec : forall n ops ws q a b ea eb, pops_ok n (vs_init n) ops -> 0 < q ->
+  let s := p_view (fold_left p_step ops (p_init n)) in
+  evt s a ea -> evt s b eb -> fc ws q s a b = fc_spec ws q n (evs s) a b.
+Proof. exact restart_fc_spec. Qed.
+(* (B) the HighestBefore / LowestAfter caches (simplewlru, any capacity incl. 0, weight = byte length) are
+   transparent: every history of Get / Set / Flush / DropNotFlushed (purge) / reopen (fresh cache) over a
+   table with its cache returns what the plain two-level map returns *)
+Theorem C05_vector_caches_transparent : forall ops t, coh t -> Forall top_small ops ->
+  t_run t ops = m_run (t_fl t, t_cur t) ops.
+Proof. exact cache_transparent. Qed.
+
 (* the executable hypothesis check run by the driver on every generated stream *)
 Theorem C05_wf_check_is_hypothesis : forall n E e, wf_evb n E e = true <-> wf_ev n E e.
 Proof. exact wf_evb_iff. Qed.
@@ -119,6 +153,15 @@ Example C05_ex_history :
   map (fun x => snd (fst x)) out = [true; true] /\ length (fc_items c) = 1%nat.
 Proof. vm_compute. split; reflexivity. Qed.
 
+(* restart right after the fork (events 4 and 5) was first indexed, with unflushed event 6 lost *)
+Definition ex_pops : list pop :=
+  map PAdd (firstn 5 ex_o) ++ [PFlush; PAdd (nth 5 ex_o (Build_event 0 0 0 [])); PRestart; PAdd (nth 5 ex_o (Build_event 0 0 0 []))].
+Example C05_ex_restart :
+  let p := fold_left p_step ex_pops (p_init 3) in
+  fc [1;1;1] 3 (p_view p) 6 1 = false /\ fc [1;1;1] 3 (p_view p) 4 1 = true /\ nbr (p_view p) = 4%nat /\
+  length (pd_hb (p_db p)) = 5%nat /\ length (pd_hb (p_cur p)) = 6%nat.
+Proof. vm_compute. repeat split; reflexivity. Qed.
+
 Print Assumptions C05_anc_is_ancestry.
 Print Assumptions C05_spec_counts_validator.
 Print Assumptions C05_spec_row_is_spec.
@@ -132,3 +175,9 @@ Print Assumptions C05_flush_drop_histories.
 Print Assumptions C05_query_from_invariant.
 Print Assumptions C05_history_answers_equal_spec.
 Print Assumptions C05_query_never_crits.
+Print Assumptions C05_reopen_reads_back_what_was_flushed.
+Print Assumptions C05_add_keeps_numbers_in_uint32.
+Print Assumptions C05_restart_index_equiv.
+Print Assumptions C05_restart_same_answers.
+Print Assumptions C05_restart_answers_equal_spec.
+Print Assumptions C05_vector_caches_transparent.
